@@ -307,6 +307,8 @@ where
             let lb_xj = x_j.ln() / self.lnb; // log base b of x_j
                                              //
             if lb_xj > -self.lower_k {
+                #[cfg(feature = "verif_hooks")]
+                crate::verif::tick(crate::verif::Event::SetSketchLowBreak);
                 break;
             }
             //
@@ -321,6 +323,8 @@ where
             let k = 0.max(z) as u64;
             //
             if k as f64 <= self.lower_k {
+                #[cfg(feature = "verif_hooks")]
+                crate::verif::tick(crate::verif::Event::SetSketchLowBreak);
                 break;
             }
             // now work with permutation sampling
@@ -330,6 +334,8 @@ where
                 log::trace!("setting slot i: {}, f_k : {:.3e}", i, k);
                 // we must enforce that f_k fits into I
                 if k > imax {
+                    #[cfg(feature = "verif_hooks")]
+                    crate::verif::tick(crate::verif::Event::SetSketchOverflowClip);
                     self.nb_overflow += 1;
                     self.k_vec[i] = I::from_u64(imax).unwrap();
                     log::warn!(
@@ -356,6 +362,8 @@ where
                             self.nbmin,
                             flow
                         );
+                        #[cfg(feature = "verif_hooks")]
+                        crate::verif::tick(crate::verif::Event::SetSketchLowRaise);
                         self.lower_k = flow;
                     }
                 }
